@@ -303,7 +303,7 @@ func c03Ops(f failer, cfg world.Cfg, c c03Case) {
 	}
 	res := r.Do(hist.Step{Op: "arch_archive", Members: []hist.Member{{Path: fn, Kind: "file", Size: c.Size, Dist: c.Dist, Seed: c.Seed, Perm: 0644, Mtime: 1e18}, {Path: gn, Kind: "file", Size: 3, Dist: 3, Seed: 9, Perm: 0600, Mtime: 1e18}}})
 	if res.Hang != nil {
-		failf(f, "%s", res.Hang.Detail)
+		checkObs(f, res.Hang, "call")
 	}
 	if res.Err != nil {
 		failf(f, "Archive(%s, %d bytes) failed: %v", cfg, c.Size, res.Err)
@@ -314,7 +314,7 @@ func c03Ops(f failer, cfg world.Cfg, c c03Case) {
 	content2 := hist.Bytes(c.Size/2+1, (c.Dist+1)%4, c.Seed+1)
 	res = r.Do(hist.Step{Op: "arch_update", Replace: true, Members: []hist.Member{{Path: fn, Kind: "file", Size: c.Size/2 + 1, Dist: (c.Dist + 1) % 4, Seed: c.Seed + 1, Perm: 0644, Mtime: 1e18}}})
 	if res.Hang != nil {
-		failf(f, "%s", res.Hang.Detail)
+		checkObs(f, res.Hang, "call")
 	}
 	if res.Err != nil {
 		failf(f, "Update(replace) failed: %v", res.Err)
@@ -333,7 +333,7 @@ func c03FS(f failer, cfg world.Cfg, c c03Case) {
 	must := func(s hist.Step) {
 		res := r.Do(s)
 		if res.Hang != nil {
-			failf(f, "%s", res.Hang.Detail)
+			checkObs(f, res.Hang, "call")
 		}
 		if res.Err != nil {
 			failf(f, "%s failed: %v", s, res.Err)
